@@ -209,6 +209,11 @@ def float_slow():
 //@ ensures [below] v < -3.4028234663852886e+38 ==> (result == -3.4028234663852886e+38 || v < -1.7976931348623157e+308)
 //@ ensures [id]    v >= -3.4028234663852886e+38 && v <= 3.4028234663852886e+38 ==> result == v
 
+// specF4OK: a value an F4 item may hold - NaN, an infinity, or a finite value within the float32 magnitude range.
+func specF4OK(v float64) bool {
+	return v != v || v > 1.7976931348623157e+308 || v < -1.7976931348623157e+308 || (v >= -3.4028234663852886e+38 && v <= 3.4028234663852886e+38)
+}
+
 func specKeepsF(nw, old []float64) bool {
 	return len(nw) >= len(old) && zzForall(func(j int) bool { return zzImp(0 <= j && j < len(old), math.Float64bits(nw[j]) == math.Float64bits(old[j])) })
 }
@@ -226,6 +231,7 @@ func specKeepsF(nw, old []float64) bool {
     for t in ["int", "int64"]:
         out.append("//@ ensures [%s] specIs_%s(value) ==> (result != nil) == (int64(value.(%s)) > 1<<53 || int64(value.(%s)) < -(1<<53))\n" % (t, t, t, t))
         out.append("//@ ensures [%sv] specIs_%s(value) && result == nil ==> len(item.values) == %s+1 && math.Float64bits(item.values[%s]) == math.Float64bits(float64(value.(%s)))\n" % (t, t, lo, lo, t))
+    out.append("//@ ensures [f4str] (specIs_string(value) || specIs_S_string(value)) && result == nil && item.byteSize == 4 ==> forall j :: len(old(item.values)) <= j && j < len(item.values) ==> specF4OK(item.values[j])\n")
     for t in ["uint", "uint64"]:
         out.append("//@ ensures [%s] specIs_%s(value) ==> (result != nil) == (uint64(value.(%s)) > 1<<53)\n" % (t, t, t))
         out.append("//@ ensures [%sv] specIs_%s(value) && result == nil ==> len(item.values) == %s+1 && math.Float64bits(item.values[%s]) == math.Float64bits(float64(value.(%s)))\n" % (t, t, lo, lo, t))
